@@ -90,6 +90,13 @@ K_NUMBER = [
       ["sonic_number::parse_number"], package="sonic-number", kind="bounded(literal length <= 8)"),
 ]
 
+K_DECLEAF = [
+    K("is_8digits_all", "big-decimal float fallback leaf: is_8digits(v) <=> all eight little-endian bytes are ASCII digits, all 2^64 inputs, no overflow panic",
+      ["sonic_number::common::is_8digits"], package="sonic-number"),
+    K("read_write_u64_window", "big-decimal float fallback leaves: read_u64 / write_u64 on a window of 8..=15 bytes are little-endian, touch exactly the first 8 bytes; v - 0x3030303030303030 after is_8digits(v) cannot underflow and leaves digit values 0..=9",
+      ["sonic_number::common::<[u8] as ByteSlice>::read_u64", "sonic_number::common::<[u8] as ByteSlice>::write_u64"], package="sonic-number"),
+]
+
 K_PASTEND = [
     K("dom_entry_past_end_is_error", "Value::parse_with_padding against the contract of the in-place parser: a parse that only stopped inside the padding (Ok with the reader 1 or 2 bytes past the end: unterminated string) is turned into an error, so the returned offset never exceeds the input (found F24); all inputs of 2 bytes x both configuration flags",
       ["value::node::Value::parse_with_padding"], kind="bounded(input length = 2)"),
@@ -139,7 +146,7 @@ PROPS["C14"] = {
 PROPS["C07"] = {
     "level": "proof",
     "verus": [{"unit": "number", "rlimit": 400}],
-    "kani": K_STR2INT + K_NUMBER,
+    "kani": K_STR2INT + K_NUMBER + K_DECLEAF,
     "trusted_base": [T5, T6, VSTD, KANI,
                      "parse_float and everything below it (fast paths, Eisel-Lemire, big-decimal) is external_body: correct rounding is ASSUMED, not proved",
                      "x86 simd_str2int contract assumed (only the fallback implementation is proved by Kani)",
@@ -208,7 +215,7 @@ K_STRBITS = [
 PROPS["C01"] = {
     "level": "proof",
     "verus": [{"unit": "recognisers", "rlimit": 200}, {"unit": "errors", "rlimit": 200}, {"unit": "number", "rlimit": 400}, {"unit": "walkers", "rlimit": 200}, {"unit": "iterators", "rlimit": 200}, {"unit": "strings", "rlimit": 200}, {"unit": "decoder", "rlimit": 300}, {"unit": "decoder_inplace", "rlimit": 300}, {"unit": "serde_access", "rlimit": 200}, {"unit": "unchecked", "rlimit": 400}, {"unit": "getmany", "rlimit": 300}, {"unit": "owned_load", "rlimit": 400}, {"unit": "walkers_unchecked", "rlimit": 400}, {"unit": "container", "rlimit": 400}, {"unit": "formatter", "rlimit": 200}, {"unit": "serializer", "rlimit": 300}, {"unit": "lazy_get", "rlimit": 300}, {"unit": "dom_visitor", "rlimit": 200}, {"unit": "typed_de", "rlimit": 300}, {"unit": "typed_num", "rlimit": 200}, {"unit": "typed_err", "rlimit": 200}],
-    "kani": K_UNICODE + K_BLOCK[3:] + K_QUOTE[1:] + K_META[:1] + K_META[2:] + K_READER + K_OWNED[:2] + K_OWNED[-1:] + K_PASTEND,
+    "kani": K_UNICODE + K_BLOCK[3:] + K_QUOTE[1:] + K_META[:1] + K_META[2:] + K_READER + K_OWNED[:2] + K_OWNED[-1:] + K_PASTEND + K_DECLEAF,
     "syntactic": [{"name": "recursion guard stays alive while the nested value is visited", "fn": synt.depth_guard_held},
                   {"name": "input-driven parser recursion has a depth budget", "fn": synt.parser_recursion_bounded}],
     "trusted_base": [T1, T2, T3, T4, T6, T8, VSTD, KANI,
